@@ -430,11 +430,24 @@ def report(ctx: click.Context, tjp_file: Optional[str], output_csv: bool, output
         sys.exit(0)
 
     except FileNotFoundError as e:
+        # Cleanup temp files and directories first: reporting the error can fail too
+        # (stderr closed or on a full device)
+        if temp_file and temp_file.exists():
+            temp_file.unlink()
+        if stdin_temp_file and stdin_temp_file.exists():
+            stdin_temp_file.unlink()
+        if temp_output_dir and temp_output_dir.exists():
+            shutil.rmtree(temp_output_dir)
+
         click.secho(f"Error: {e}", fg="red", err=True)
         if verbose:
             logger.exception("File validation failed")
 
-        # Cleanup temp files and directories
+        sys.exit(1)
+
+    except ReportGenerationError as e:
+        # Cleanup temp files and directories first: reporting the error can fail too
+        # (stderr closed or on a full device)
         if temp_file and temp_file.exists():
             temp_file.unlink()
         if stdin_temp_file and stdin_temp_file.exists():
@@ -442,35 +455,25 @@ def report(ctx: click.Context, tjp_file: Optional[str], output_csv: bool, output
         if temp_output_dir and temp_output_dir.exists():
             shutil.rmtree(temp_output_dir)
 
-        sys.exit(1)
-
-    except ReportGenerationError as e:
         click.secho(f"Error: {e}", fg="red", err=True)
         if verbose:
             logger.exception("Report generation failed")
 
-        # Cleanup temp files and directories
-        if temp_file and temp_file.exists():
-            temp_file.unlink()
-        if stdin_temp_file and stdin_temp_file.exists():
-            stdin_temp_file.unlink()
-        if temp_output_dir and temp_output_dir.exists():
-            shutil.rmtree(temp_output_dir)
-
         sys.exit(2)
 
     except Exception as e:
-        click.secho(f"Unexpected error: {e}", fg="red", err=True)
-        if verbose:
-            logger.exception("Unexpected error occurred")
-
-        # Cleanup temp files and directories
+        # Cleanup temp files and directories first: reporting the error can fail too
+        # (stderr closed or on a full device)
         if temp_file and temp_file.exists():
             temp_file.unlink()
         if stdin_temp_file and stdin_temp_file.exists():
             stdin_temp_file.unlink()
         if temp_output_dir and temp_output_dir.exists():
             shutil.rmtree(temp_output_dir)
+
+        click.secho(f"Unexpected error: {e}", fg="red", err=True)
+        if verbose:
+            logger.exception("Unexpected error occurred")
 
         sys.exit(2)
 
